@@ -23,7 +23,7 @@ def run_lp(case, want_long=True):
     c.oracle = refmodel.Oracle(inst, opts['twopl'], opts['pc'])
     c.criteria = strategies.ordered_criteria(opts)
     c.run = solverio.Run(inst, opts, case.get('mode', 'eb'), case.get('choices', ()),
-                         noise=case.get('noise')).solve()
+                         noise=case.get('noise'), salt=case.get('salt', 0)).solve()
     c.records = c.run.backend.records
     c.short_text = c.run.results('short')
     c.short = solverio.restext.parse_results(c.short_text)
@@ -63,10 +63,11 @@ def lp_cases(draw, tier, cbc_pct=8, inst_kw=None, opt_kw=None, sizes=None):
     # mixture knobs are drawn first: Hypothesis' generation-time mutation skews
     # draws that come late in a long choice sequence (measured; see DESIGN.md 2.2)
     mode = 'cbc' if pct(draw) < cbc_pct else 'eb'
+    salt = draw(strategies.salts)
     inst = draw(strategies.instances(sizes, **(inst_kw or {})))
     opts = draw(strategies.option_sets(inst, **(opt_kw or {})))
     choices = draw(strategies.choice_lists) if mode == 'eb' else []
-    return {'inst': inst, 'opts': opts, 'choices': choices, 'mode': mode}
+    return {'inst': inst, 'opts': opts, 'choices': choices, 'mode': mode, 'salt': salt}
 
 
 def base_labels(c, case):
